@@ -51,12 +51,12 @@ fn roots() -> Vec<(Recipe, Config)> {
         Recipe { segs: vec![Seg::Run { byte: 7, n: 5000 }], twice: false },
     ];
     let cfgs = vec![
-        Config { ctor: Ctor::Flags, level: 0, strategy: 0, zlib: true, wbits: 15 },
-        Config { ctor: Ctor::Flags, level: 1, strategy: 0, zlib: false, wbits: 15 },
-        Config { ctor: Ctor::Flags, level: 6, strategy: 0, zlib: true, wbits: 15 },
-        Config { ctor: Ctor::Flags, level: 9, strategy: 1, zlib: false, wbits: 15 },
-        Config { ctor: Ctor::Flags, level: 2, strategy: 4, zlib: true, wbits: 15 },
-        Config { ctor: Ctor::Default, level: 0, strategy: 0, zlib: true, wbits: 15 },
+        Config { ctor: Ctor::Flags, level: 0, strategy: 0, zlib: true, wbits: 15, hand: 0 },
+        Config { ctor: Ctor::Flags, level: 1, strategy: 0, zlib: false, wbits: 15, hand: 0 },
+        Config { ctor: Ctor::Flags, level: 6, strategy: 0, zlib: true, wbits: 15, hand: 0 },
+        Config { ctor: Ctor::Flags, level: 9, strategy: 1, zlib: false, wbits: 15, hand: 0 },
+        Config { ctor: Ctor::Flags, level: 2, strategy: 4, zlib: true, wbits: 15, hand: 0 },
+        Config { ctor: Ctor::Default, level: 0, strategy: 0, zlib: true, wbits: 15, hand: 0 },
     ];
     let mut v = Vec::new();
     for d in &datas {
